@@ -19,6 +19,13 @@ func (monC06) Step(h *History, st *Step) []Violation {
 	if st.Op.Kind == OpPlaceBid {
 		if a := pre.Auction(st.Op.Auction); a != nil && !a.IsBatch() {
 			exp := RefAccept(pre, st.Op, st.Now, h.W.B.GovAddr)
+			if st.Res.FaultHit != "" {
+				// a bank transfer of this message was made to fail: the only acceptable outcome is the error
+				if st.Res.OK {
+					vs = append(vs, viol("C06/bank-failure-swallowed", "bid %s was accepted although its bank transfer %s failed", st.Op.String(), st.Res.FaultHit))
+				}
+				return vs
+			}
 			if exp.Accept != st.Res.OK {
 				vs = append(vs, viol("C06/accept-mismatch", "fixed price auction %d (status %s, remaining %s, price %s): bid %s was %s but the acceptance rule says %s (%s); impl error: %s",
 					a.ID, a.Status, a.Remaining, mstr(a.StartPriceM), st.Op.String(), okStr(st.Res.OK), okStr(exp.Accept), exp.Reason, firstLine(st.Res.Err)))
@@ -449,6 +456,7 @@ func CfgC09() PropCfg {
 	w.Block, w.PlaceBid, w.ModifyBid = 34, 26, 6
 	w.ManyInstalmentsPct = 12
 	w.PerturbPct = 5
+	w.FaultBlock = 3 // an instalment whose transfer fails stays owed
 	return PropCfg{ID: "C09", Weights: w, MinOps: 10, MaxOps: 50, DrivePct: 90,
 		New: func() Monitor { return &monC09{} },
 		NonTrivial: func(h *History) bool { return hasLabel(h, "c09:>=2-instalments-not-divisible") },
@@ -600,6 +608,13 @@ func (m *monC12) Step(h *History, st *Step) []Violation {
 		if a.Start.Equal(st.Now) || a.Start.Add(-1).Equal(st.Now) || a.Start.Add(1).Equal(st.Now) {
 			h.Label("c12:cancel-around-start-time")
 		}
+	}
+	if st.Res.FaultHit != "" {
+		// the refund transfer was made to fail: the cancellation must fail as a whole
+		if st.Res.OK {
+			vs = append(vs, viol("C12/bank-failure-swallowed", "step #%d: cancel of auction %d succeeded although its bank transfer %s failed", st.Idx, st.Op.Auction, st.Res.FaultHit))
+		}
+		return vs
 	}
 	if want != st.Res.OK {
 		why := "missing auction"
